@@ -225,6 +225,18 @@ func lexFamily() []Stmt {
 		add("litwhere:"+l[0], "select", "SELECT id FROM t1 WHERE b = "+l[1]+" OR a = "+l[1], false, t1)
 	}
 
+	// call-argument form x trailing clause, OVER included (window calls are
+	// outside the parser's grammar today; they are here for the day they are not)
+	for _, arg := range [][2]string{{"star", "*"}, {"expr", "a"}, {"distinct", "DISTINCT a"}, {"none", ""}} {
+		for _, tr := range [][2]string{
+			{"none", ""}, {"filter", " FILTER (WHERE a > 5)"}, {"over", " OVER ()"}, {"overpartition", " OVER (PARTITION BY b ORDER BY a)"},
+			{"filterover", " FILTER (WHERE a > 5) OVER ()"},
+		} {
+			add("call:"+arg[0]+":"+tr[0], "select", "SELECT count("+arg[1]+")"+tr[1]+" FROM t1", false, t1)
+			add("callgroup:"+arg[0]+":"+tr[0], "select", "SELECT b, count("+arg[1]+")"+tr[1]+" AS n FROM t1 GROUP BY b ORDER BY b", false, t1)
+		}
+	}
+
 	for _, l := range [][2]string{
 		{"upper", "T1"}, {"dq", `"t1"`}, {"backtick", "`t1`"}, {"bracket", "[t1]"}, {"schema", "main.t1"}, {"schemadq", `"main"."t1"`},
 		{"mixed", `main."t1"`},
